@@ -451,6 +451,32 @@ def stmt (st : St) (ws : List String) : St × String :=
      | _, _ => (st, "skip"))
   | ["routelate", l, r, k0, k] => routeLateStmt st l r k0 k
   | ["handlerlisten", l, trig, s] => handlerListenStmt st l trig s
+  | ["lateloop2", l, trig1, trig2, s] =>
+    -- a loop created and used (`loop.or_else(trig1)`) by `trig1`'s handler and closed onto `s` by `trig2`'s handler later in the
+    -- same transaction: transparent (C11) — the listener hears `s.or_else(trig1)` from that transaction on
+    if !st.fresh l then (st, "skip") else
+    (match st.stream trig1, st.stream trig2, st.stream s with
+     | some t1, some _, some s =>
+       st.inTxn fun st =>
+         let j := st.sp.defs.size
+         let st := st.addDef (l ++ "#n") (.orelse s t1) .s
+         let (st, _, e) := lateEvents st l t1 j
+         let st := { st with lis := st.lis.push { name := l, target := e, isCell := false, regTxn := st.sp.txn, weak := false } }
+         st.bind l .post
+     | _, _, _ => (st, "skip"))
+  | ["laterouter", l, trig, s, sel, k] =>
+    -- a router on `s` built by `trig`'s handler, its route `k` listened to: the events of `s` routed to `k` from that
+    -- transaction on
+    if !st.fresh l then (st, "skip") else
+    (match st.stream trig, st.stream s, num sel, num k with
+     | some t, some s, some sel, some k =>
+       st.inTxn fun st =>
+         let j := st.sp.defs.size
+         let st := st.addDef (l ++ "#r") (.route s sel k) .s
+         let (st, _, e) := lateEvents st l t j
+         let st := { st with lis := st.lis.push { name := l, target := e, isCell := false, regTxn := st.sp.txn, weak := false } }
+         st.bind l .post
+     | _, _, _, _ => (st, "skip"))
   | ["routehandler", l, trig, r, k] =>
     -- `trig.once().listen(|_| { r.filter_matches(k).listen(log l) })`: the events routed to `k` from the transaction of the
     -- request on (a transaction of its own when `trig` is a deferred stream: then nothing of the earlier one)
@@ -488,6 +514,7 @@ def stmt (st : St) (ws : List String) : St × String :=
   | ["latelisten", l, s, base, op] => lateListenStmt st l s base op
   | ["switchlate", x, s, base, op] => switchLateStmt st x s base op
   | ["switchlatec", x, s, base, op] => switchLateCStmt st x s base op
+  | ["switchlatecs", x, s, base, op] => switchLateCStmt st x s base op      -- a switch over a constant cell is its stream
   | "switchc" :: x :: sel :: cands =>
     defStmt st x (do
       let sel ← st.cell sel
